@@ -29,6 +29,15 @@ impl Driven for D {
          _ => panic!("verif harness: unknown relation {}", rel),
       }
    }
+   fn clear(&mut self, rel: &str) {
+      match rel {
+         "e" => { self.0.e = Default::default(); },
+         "bs" => { self.0.bs = Default::default(); },
+         "top" => { self.0.top = Default::default(); },
+         "has1" => { self.0.has1 = Default::default(); },
+         _ => panic!("verif harness: unknown relation {}", rel),
+      }
+   }
    fn run(&mut self) { self.0.run(); }
    fn run_timeout(&mut self, nanos: u64) -> Option<bool> { Some(self.0.run_timeout(std::time::Duration::from_nanos(nanos))) }
    fn dump(&self) -> Value {
